@@ -77,7 +77,12 @@ pub(crate) fn destructure(
 
     for item in items {
         let item_pos = item.position();
-        if item_pos.contains_offset(offset) {
+        // After a parse error, an expression can start before the
+        // item it is in. Only rewrite an item that starts before the
+        // expression.
+        if item_pos.contains_offset(offset)
+            && item_pos.start_offset <= expr.position.start_offset
+        {
             // All the items before this one.
             result.push_str(&src[..item_pos.start_offset]);
 
@@ -109,6 +114,10 @@ pub(crate) fn destructure(
 
             break;
         }
+    }
+
+    if result.is_empty() {
+        return Err("The selected expression is not inside a single definition.".to_owned());
     }
 
     Ok(result)
